@@ -1,5 +1,6 @@
 /-!
-# Game lifecycle (C06) — the coroutine `Game._run` of `mpf/modes/game/code/game.py` (after the D19/D20 repairs) as a
+# Game lifecycle (C06) — the coroutine `Game._run` of `mpf/modes/game/code/game.py` (after the D19/D20 repairs, the ball increment at the
+beginning of the turn and the early return of `_start_game` when the game is already ending) as a
 resumable state machine
 
 `pc = some e`: the coroutine awaits the completion of lifecycle event `e` (for `ball_started`: it then sits in
@@ -15,7 +16,7 @@ inductive Ev
 
 inductive Op
   | start | resume | endBall | endGame | slam | setBip (n : Int) | drain (n : Nat) | extraBall | addPlayer
-  | addAccepted | addRejected | playerAdded | finish
+  | addAccepted | addRejected | playerAdded | finish | startCheck
   deriving DecidableEq, Repr
 
 structure St where
@@ -31,6 +32,12 @@ structure St where
   ending : Bool := false
   slam : Bool := false
   endEv : Bool := false
+  checked : Bool := false        -- `_start_game` is past its `if self.ending: return`
+  pendAdds : Nat := 0            -- player_add_request accepted, player not yet appended (same drain of the bus)
+  -- ghost counters of the current game (not observable; for the extra-ball accounting theorem)
+  started : Nat → Nat := fun _ => 0      -- ball_will_start per player
+  firstBalls : Nat → Nat := fun _ => 0   -- turns of that player whose first ball started
+  awarded : Nat → Nat := fun _ => 0      -- extra balls awarded to that player
   log : List (Ev × Nat × Nat) := []
 
 def setAt (f : Nat → Nat) (i v : Nat) : Nat → Nat := fun j => if j = i then v else f j
@@ -46,28 +53,36 @@ def setBipTo (st : St) (v : Int) : St :=
 /-- `while not self.ending:` — next turn, or the end of the game -/
 def loopCheck (st : St) : St :=
   if st.ending then emit st .gwe
-  else emit { st with cur := if st.cur = 0 then 1 else st.cur } .ptws
+  else
+    -- `_start_player_turn`: (first turn: rotate to player 1); `self.player.ball += 1`; post player_turn_will_start
+    let c := if st.cur = 0 then 1 else st.cur
+    emit { st with cur := c, balls := setAt st.balls c (st.balls c + 1) } .ptws
 
 /-- `_run_ball` up to its first post, for a ball that does start -/
-def startBall (st : St) : St := emit { st with endEv := false } .bws
+def startBall (st : St) (first : Bool) : St :=
+  emit { st with endEv := false, started := setAt st.started st.cur (st.started st.cur + 1),
+                 firstBalls := if first then setAt st.firstBalls st.cur (st.firstBalls st.cur + 1) else st.firstBalls } .bws
 
 /-- `while self.player.extra_balls and not self.slam_tilted and not self.ending: await self._award_extra_ball()` -/
 def extraCheck (st : St) : St :=
   if st.extra st.cur > 0 && !st.slam && !st.ending then
-    startBall { st with extra := setAt st.extra st.cur (st.extra st.cur - 1) }
+    startBall { st with extra := setAt st.extra st.cur (st.extra st.cur - 1) } false
   else emit st .ptwe
 
 def resume (st : St) : Option St :=
+  if st.pendAdds > 0 then none else      -- an accepted add completes in the same drain of the bus, before `_run` resumes
   match st.pc with
   | none => none
   | some .gws => some (emit st .gsg)
   | some .gsg =>
-    -- `if self.player_list: ... else: self.request_player_add()`; the first player added becomes the current one
-    some (emit (if st.players = 0 then { st with players := 1, cur := 1 } else st) .gsd)
+    -- `_start_game` after game_starting: `if self.ending: return` (then `while not self.ending` is skipped); otherwise
+    -- (op `startCheck`) it asks for a first player if there is none and waits until one has been added
+    if !st.checked then (if st.ending then some (emit st .gwe) else none)
+    else if st.players = 0 then none else some (emit st .gsd)
   | some .gsd => some (loopCheck st)
   | some .ptws => some (emit st .ptsg)
-  | some .ptsg => some (emit { st with balls := setAt st.balls st.cur (st.balls st.cur + 1) } .ptsd)
-  | some .ptsd => some (if st.ending then extraCheck st else startBall st)
+  | some .ptsg => some (emit st .ptsd)
+  | some .ptsd => some (if st.ending then extraCheck st else startBall st true)
   | some .bws => some (emit st .bsg)
   | some .bsg => some (emit (setBipTo st 1) .bsd)
   | some .bsd => if st.endEv then some (emit { st with bip := 0 } .bwe) else none
@@ -90,17 +105,19 @@ def addRefused (st : St) : Bool :=
 
 /-- the asynchronous form of a player add: the request is accepted / refused now, the player appears later -/
 def stepAdd (st : St) : Op → Option St
-  | .addAccepted => if st.pc.isNone || addRefused st then none else some st
+  | .addAccepted => if st.pc.isNone || addRefused st then none else some { st with pendAdds := st.pendAdds + 1 }
   | .addRejected => if st.pc.isNone || !addRefused st then none else some st
-  | .playerAdded => if st.pc.isNone then none
-    else some { st with players := st.players + 1, cur := if st.cur = 0 then st.players + 1 else st.cur }
+  | .playerAdded => if st.pc.isNone || st.pendAdds = 0 then none
+    else some { st with players := st.players + 1, cur := if st.cur = 0 then st.players + 1 else st.cur,
+                        pendAdds := st.pendAdds - 1 }
   | _ => none
 
 def step (st : St) : Op → Option St
   | .start =>
     if st.pc.isSome then none
     else some (emit { st with players := 0, cur := 0, balls := fun _ => 0, extra := fun _ => 0, bip := 0,
-                              ending := false, slam := false, endEv := false } .gws)
+                              ending := false, slam := false, endEv := false, pendAdds := 0, checked := false,
+                              started := (fun _ => 0), firstBalls := (fun _ => 0), awarded := (fun _ => 0) } .gws)
   | .resume => resume st
   | .endBall => if st.pc.isNone then none else some { st with endEv := true }
   | .endGame => if st.pc.isNone then none else some { st with ending := true, endEv := true }
@@ -109,7 +126,12 @@ def step (st : St) : Op → Option St
   | .drain n =>
     -- `ball_drained` is registered from just before `ball_started` until `_end_ball` begins
     if st.pc = some .bsd then some (if n = 0 then st else setBipTo st ((st.bip : Int) - n)) else none
-  | .extraBall => if st.pc.isNone || st.cur = 0 then none else some { st with extra := setAt st.extra st.cur (st.extra st.cur + 1) }
+  | .extraBall =>
+    if st.pc.isNone || st.cur = 0 then none
+    else
+      let ex := setAt st.extra st.cur (st.extra st.cur + 1)
+      let aw := setAt st.awarded st.cur (st.awarded st.cur + 1)
+      some { st with extra := ex, awarded := aw }
   | .addPlayer =>
     if st.pc.isNone then none
     else if addRefused st then some st
@@ -118,6 +140,8 @@ def step (st : St) : Op → Option St
   | .addRejected => stepAdd st .addRejected
   | .playerAdded => stepAdd st .playerAdded
   -- `_run` has returned: the mode stops and `machine.game` is cleared
+  | .startCheck =>
+    if st.pc = some .gsg && !st.checked && !st.ending && decide (st.pendAdds = 0) then some { st with checked := true } else none
   | .finish => if st.pc = some .ged then some { st with pc := none } else none
 
 def run (st : St) : List Op → St
@@ -162,6 +186,7 @@ def driverStep (st : St) (line : String) : St × String :=
   | ["addaccepted"] => answer st (step st .addAccepted)
   | ["addrejected"] => answer st (step st .addRejected)
   | ["playeradded"] => answer st (step st .playerAdded)
+  | ["startcheck"] => answer st (step st .startCheck)
   | ["finish"] => match step st .finish with
     | some st' => (st', "ok")
     | none => (st, "not-enabled")
